@@ -52,12 +52,18 @@ def gen_graph(prng, big):
         n = min(n, 7)
         edges = set(combinations(range(n), 2))
     labels = list(range(n)) if prng.random() < 0.5 else sorted(prng.sample(range(0, 50), n))
+    if prng.random() < 0.06:
+        off = prng.choice((250, 995, 2 ** 31 - 3, 2 ** 63 + 5))
+        labels = [x + off for x in labels]
     if prng.random() < 0.3:
         prng.shuffle(labels)
     es = sorted([labels[a], labels[b]] for a, b in edges)
     prng.shuffle(es)
     es = [e if prng.random() < 0.5 else e[::-1] for e in es]
     nodes = list(labels)
+    if prng.random() < 0.04:
+        top = max(nodes) if nodes else 0
+        nodes += [top + 1 + i for i in range(prng.choice((30, 120, 300)))]      # many isolated vertices
     prng.shuffle(nodes)
     return nodes, es
 
@@ -67,7 +73,7 @@ def generate(prng, tier, index):
     variant = "faults" if index % 5 == 4 else "clean"
     ncalls = prng.choice((1, 1, 2))
     sc = {"variant": variant, "nodes": nodes, "edges": es,
-          "limits": [prng.choice((0, 0, 2, 3, 4, 5)) for _ in range(ncalls)],
+          "limits": [prng.choice((0, 0, 2, 3, 4, 5)) if prng.random() > 0.05 else prng.choice((6, 7, 8, 100, 2 ** 31)) for _ in range(ncalls)],
           "policy": {"shuffle": [prng.choice(SHUFFLES) for _ in range(ncalls + 1)]},
           "attrs": prng.random() < 0.3}
     if variant == "faults":
